@@ -6,10 +6,13 @@ import SqlModel.Bookkeeping
 the parent clause no object is a child of two groups); the graph is acyclic (`rank` strictly decreases from a group to its children); every
 group is non-empty; and the cached `value` of every group is its current text (`T`, the unique solution of the text equations).
 `rank` and `T` are ghosts (not present in Python).  Main results: `mkStatement_inv`, `groupTokens_inv`, `runOps_wf`.
+
+The invariant is split: `Inv0` (everything except "groups are non-empty") is kept by *every* returning `group_tokens` call, also one with an
+empty slice, and by `ttype` assignments (`groupTokens_inv0`, `setTType_inv0`, `runHOps_wf0`); `Inv` = `Inv0` + non-empty groups.
 -/
 namespace Sql.BK
 
-structure Inv (h : Heap) (rank : Nat → Nat) (T : Nat → Text) : Prop where
+structure Inv0 (h : Heap) (rank : Nat → Nat) (T : Nat → Text) : Prop where
   range : ∀ g ks, (h.obj g).kids = some ks → g < h.size ∧ ∀ k ∈ ks, k < h.size
   par : ∀ g ks, (h.obj g).kids = some ks → ∀ k ∈ ks, (h.obj k).parent = some g
   nodup : ∀ g ks, (h.obj g).kids = some ks → ks.Nodup
@@ -17,13 +20,33 @@ structure Inv (h : Heap) (rank : Nat → Nat) (T : Nat → Text) : Prop where
   leafT : ∀ l, (h.obj l).kids = none → T l = (h.obj l).value
   grpT : ∀ g ks, (h.obj g).kids = some ks → T g = (ks.map T).flatten
   cache : ∀ g ks, (h.obj g).kids = some ks → (h.obj g).value = T g
+
+structure Inv (h : Heap) (rank : Nat → Nat) (T : Nat → Text) : Prop extends Inv0 h rank T where
   nonempty : ∀ g ks, (h.obj g).kids = some ks → ks ≠ []
 
 /-- the well-formedness users rely on, ghosts hidden -/
 def WF (h : Heap) : Prop := ∃ rank T, Inv h rank T
 
+/-- well-formedness without "groups are non-empty" -/
+def WF0 (h : Heap) : Prop := ∃ rank T, Inv0 h rank T
+
+theorem WF.toWF0 {h : Heap} : WF h → WF0 h := fun ⟨rank, T, hinv⟩ => ⟨rank, T, hinv.toInv0⟩
+
+/-- `Inv0` only reads `size`, `parent`, `kids` and `value` -/
+theorem Inv0.of_same {h h' : Heap} {rank : Nat → Nat} {T : Nat → Text} (hsz : h'.size = h.size)
+    (hsame : ∀ j, (h'.obj j).parent = (h.obj j).parent ∧ (h'.obj j).kids = (h.obj j).kids ∧ (h'.obj j).value = (h.obj j).value)
+    (hinv : Inv0 h rank T) : Inv0 h' rank T := by
+  refine ⟨?_, ?_, ?_, ?_, ?_, ?_, ?_⟩
+  · intro g ks hk; rw [(hsame g).2.1] at hk; rw [hsz]; exact hinv.range g ks hk
+  · intro g ks hk k hm; rw [(hsame g).2.1] at hk; rw [(hsame k).1]; exact hinv.par g ks hk k hm
+  · intro g ks hk; rw [(hsame g).2.1] at hk; exact hinv.nodup g ks hk
+  · intro g ks hk k hm; rw [(hsame g).2.1] at hk; exact hinv.rk g ks hk k hm
+  · intro l hl; rw [(hsame l).2.1] at hl; rw [(hsame l).2.2]; exact hinv.leafT l hl
+  · intro g ks hk; rw [(hsame g).2.1] at hk; exact hinv.grpT g ks hk
+  · intro g ks hk; rw [(hsame g).2.1] at hk; rw [(hsame g).2.2]; exact hinv.cache g ks hk
+
 /-- with enough recursion budget `str()` computes the text -/
-theorem strF_eq {h : Heap} {rank : Nat → Nat} {T : Nat → Text} (hinv : Inv h rank T) :
+theorem strF_eq {h : Heap} {rank : Nat → Nat} {T : Nat → Text} (hinv : Inv0 h rank T) :
     ∀ (f i : Nat), rank i < f → strF h f i = T i := by
   intro f
   induction f with
@@ -43,7 +66,7 @@ theorem strF_eq {h : Heap} {rank : Nat → Nat} {T : Nat → Text} (hinv : Inv h
 
 /-- `str()` only looks below: a walk that starts below `self` never reaches an object `st` that is a child of nothing below `self`, so it
 is unchanged by writes to `st` and to objects not strictly below `self` -/
-theorem strF_frame {h hx : Heap} {rank : Nat → Nat} {T : Nat → Text} (hinv : Inv h rank T) (self st : Nat)
+theorem strF_frame {h hx : Heap} {rank : Nat → Nat} {T : Nat → Text} (hinv : Inv0 h rank T) (self st : Nat)
     (hnokid : ∀ i ks, (h.obj i).kids = some ks → st ∈ ks → ¬ rank i < rank self)
     (hagree : ∀ j, rank j < rank self → j ≠ st → (hx.obj j).kids = (h.obj j).kids ∧ (hx.obj j).value = (h.obj j).value) :
     ∀ (f i : Nat), rank i < rank self → i ≠ st → strF hx f i = strF h f i := by
@@ -103,7 +126,7 @@ namespace Sql.BK
 def newHeap (h : Heap) (self : Nat) (cls : Cls) (ks : List Nat) (start endIdx : Nat) (V : Text) : Heap :=
   { size := h.size + 1
     obj := fun j =>
-      if j = h.size then ⟨some self, some (pySlice ks start endIdx), cls, V⟩
+      if j = h.size then { parent := some self, kids := some (pySlice ks start endIdx), cls := cls, value := V }
       else if j = self then { h.obj self with kids := some (ks.take start ++ h.size :: ks.drop (max start endIdx)) }
       else if (pySlice ks start endIdx).contains j then { h.obj j with parent := some h.size }
       else h.obj j }
@@ -181,13 +204,13 @@ theorem newHeap_kids_cases {j : Nat} {ks' : List Nat}
       · exact hk'
       · exact hk'
 
-theorem newHeap_inv (hinv : Inv h rank T) (hk : (h.obj self).kids = some ks) (hlt : start < endIdx) (hstart : start < ks.length)
+/-- everything but "non-empty" survives also an empty slice (`start ≥ endIdx`: the new group is empty and is inserted before `start`) -/
+theorem newHeap_inv0 (hinv : Inv0 h rank T) (hk : (h.obj self).kids = some ks) (hstart : start < ks.length)
     (hV : V = ((pySlice ks start endIdx).map T).flatten) :
-    Inv (newHeap h self cls ks start endIdx V) (rankNew rank self h.size)
+    Inv0 (newHeap h self cls ks start endIdx V) (rankNew rank self h.size)
       (textNew T h.size ((pySlice ks start endIdx).map T).flatten) := by
   -- facts about the pieces of `ks`
   have hsplit := slice_split ks start endIdx
-  have hmax : max start endIdx = endIdx := Nat.max_eq_right (Nat.le_of_lt hlt)
   have hrange := hinv.range self ks hk
   have hselfLt : self < h.size := hrange.1
   have hksLt : ∀ k ∈ ks, k < h.size := hrange.2
@@ -207,14 +230,9 @@ theorem newHeap_inv (hinv : Inv h rank T) (hk : (h.obj self).kids = some ks) (hl
     exact this rfl
   have hgNotKs : h.size ∉ ks := fun hm => Nat.lt_irrefl _ (hksLt _ hm)
   have hselfNotKs : self ∉ ks := fun hm => Nat.lt_irrefl _ (hksRank _ hm)
-  have hsubNe : pySlice ks start endIdx ≠ [] := by
-    intro he
-    have : (pySlice ks start endIdx).length = 0 := by rw [he]; rfl
-    unfold pySlice at this
-    rw [List.length_drop, List.length_take] at this
-    omega
   -- accessors of the new heap
-  have objG : (newHeap h self cls ks start endIdx V).obj h.size = ⟨some self, some (pySlice ks start endIdx), cls, V⟩ := by
+  have objG : (newHeap h self cls ks start endIdx V).obj h.size =
+      { parent := some self, kids := some (pySlice ks start endIdx), cls := cls, value := V } := by
     simp [newHeap]
   have objOther : ∀ j, j ≠ h.size → j ≠ self → j ∉ pySlice ks start endIdx →
       (newHeap h self cls ks start endIdx V).obj j = h.obj j := by
@@ -263,7 +281,7 @@ theorem newHeap_inv (hinv : Inv h rank T) (hk : (h.obj self).kids = some ks) (hl
     intro a b ha hb hab
     simp only [rankNew, ha, hb, if_false]
     split <;> split <;> omega
-  refine ⟨?_, ?_, ?_, ?_, ?_, ?_, ?_, ?_⟩
+  refine ⟨?_, ?_, ?_, ?_, ?_, ?_, ?_⟩
   · -- range
     intro j ks' hk'
     rcases newHeap_kids_cases hk' with ⟨rfl, rfl⟩ | ⟨_, rfl, rfl⟩ | ⟨_, _, hold⟩
@@ -372,12 +390,27 @@ theorem newHeap_inv (hinv : Inv h rank T) (hk : (h.obj self).kids = some ks) (hl
     · have h1 : j ≠ h.size := by omega
       rw [TNewOld j h1, valueOld j h1]; exact hinv.cache j ks hk
     · rw [TNewOld j hjg, valueOld j hjg]; exact hinv.cache j ks' hold
-  · -- non-empty
-    intro j ks' hk'
-    rcases newHeap_kids_cases hk' with ⟨rfl, rfl⟩ | ⟨_, rfl, rfl⟩ | ⟨_, _, hold⟩
-    · exact hsubNe
-    · simp
-    · exact hinv.nonempty j ks' hold
+
+/-- with a non-empty slice the groups stay non-empty -/
+theorem newHeap_nonempty (hne : ∀ g ks, (h.obj g).kids = some ks → ks ≠ []) (hlt : start < endIdx) (hstart : start < ks.length) :
+    ∀ g ks', ((newHeap h self cls ks start endIdx V).obj g).kids = some ks' → ks' ≠ [] := by
+  have hsubNe : pySlice ks start endIdx ≠ [] := by
+    intro he
+    have : (pySlice ks start endIdx).length = 0 := by rw [he]; rfl
+    unfold pySlice at this
+    rw [List.length_drop, List.length_take] at this
+    omega
+  intro j ks' hk'
+  rcases newHeap_kids_cases hk' with ⟨rfl, rfl⟩ | ⟨_, rfl, rfl⟩ | ⟨_, _, hold⟩
+  · exact hsubNe
+  · simp
+  · exact hne j ks' hold
+
+theorem newHeap_inv (hinv : Inv h rank T) (hk : (h.obj self).kids = some ks) (hlt : start < endIdx) (hstart : start < ks.length)
+    (hV : V = ((pySlice ks start endIdx).map T).flatten) :
+    Inv (newHeap h self cls ks start endIdx V) (rankNew rank self h.size)
+      (textNew T h.size ((pySlice ks start endIdx).map T).flatten) :=
+  ⟨newHeap_inv0 hinv.toInv0 hk hstart hV, newHeap_nonempty hinv.nonempty hlt hstart⟩
 
 end NewGroup
 
@@ -462,10 +495,10 @@ theorem extHeap_kids_cases {j : Nat} {ks' : List Nat}
 theorem take_succ_of_getElem? {α : Type} (l : List α) (n : Nat) (x : α) (hx : l[n]? = some x) : l.take (n + 1) = l.take n ++ [x] := by
   rw [List.take_succ, hx]; rfl
 
-theorem extHeap_inv (hinv : Inv h rank T) (hk : (h.obj self).kids = some ks) (hst : ks[start]? = some st)
+theorem extHeap_inv0 (hinv : Inv0 h rank T) (hk : (h.obj self).kids = some ks) (hst : ks[start]? = some st)
     (hkst : (h.obj st).kids = some kst)
     (hV : V = T st ++ ((pySlice ks (start + 1) endIdx).map T).flatten) :
-    Inv (extHeap h self st ks kst start endIdx V) (rankNew rank self st)
+    Inv0 (extHeap h self st ks kst start endIdx V) (rankNew rank self st)
       (textNew T st (T st ++ ((pySlice ks (start + 1) endIdx).map T).flatten)) := by
   have hsplit := slice_split ks (start + 1) endIdx
   have htake := take_succ_of_getElem? ks start st hst
@@ -560,7 +593,7 @@ theorem extHeap_inv (hinv : Inv h rank T) (hk : (h.obj self).kids = some ks) (hs
     intro a b ha hb hab
     simp only [rankNew, ha, hb, if_false]
     split <;> split <;> omega
-  refine ⟨?_, ?_, ?_, ?_, ?_, ?_, ?_, ?_⟩
+  refine ⟨?_, ?_, ?_, ?_, ?_, ?_, ?_⟩
   · -- range
     intro j ks' hk'
     have hsz : (extHeap h self st ks kst start endIdx V).size = h.size := rfl
@@ -685,14 +718,28 @@ theorem extHeap_inv (hinv : Inv h rank T) (hk : (h.obj self).kids = some ks) (hs
     · rw [objSt, TNewSt]; exact hV
     · rw [TNewOld j hstSelf.symm, valueOld j hstSelf.symm]; exact hinv.cache j ks hk
     · rw [TNewOld j hjg, valueOld j hjg]; exact hinv.cache j ks' hold
-  · -- non-empty
-    intro j ks' hk'
-    rcases extHeap_kids_cases hk' with ⟨rfl, rfl⟩ | ⟨_, rfl, rfl⟩ | ⟨_, _, hold⟩
-    · have := hinv.nonempty j kst hkst
-      intro he
-      exact this (List.append_eq_nil_iff.mp he).1
-    · rw [hdel]; simp
-    · exact hinv.nonempty j ks' hold
+
+/-- extending a group never empties a group (whatever the slice) -/
+theorem extHeap_nonempty (hne : ∀ g ks, (h.obj g).kids = some ks → ks ≠ []) (hst : ks[start]? = some st)
+    (hkst : (h.obj st).kids = some kst) :
+    ∀ g ks', ((extHeap h self st ks kst start endIdx V).obj g).kids = some ks' → ks' ≠ [] := by
+  have htake := take_succ_of_getElem? ks start st hst
+  have hdel : pyDelSlice ks (start + 1) endIdx = ks.take start ++ st :: ks.drop (max (start + 1) endIdx) := by
+    unfold pyDelSlice; rw [htake]; simp
+  intro j ks' hk'
+  rcases extHeap_kids_cases hk' with ⟨rfl, rfl⟩ | ⟨_, rfl, rfl⟩ | ⟨_, _, hold⟩
+  · have := hne j kst hkst
+    intro he
+    exact this (List.append_eq_nil_iff.mp he).1
+  · rw [hdel]; simp
+  · exact hne j ks' hold
+
+theorem extHeap_inv (hinv : Inv h rank T) (hk : (h.obj self).kids = some ks) (hst : ks[start]? = some st)
+    (hkst : (h.obj st).kids = some kst)
+    (hV : V = T st ++ ((pySlice ks (start + 1) endIdx).map T).flatten) :
+    Inv (extHeap h self st ks kst start endIdx V) (rankNew rank self st)
+      (textNew T st (T st ++ ((pySlice ks (start + 1) endIdx).map T).flatten)) :=
+  ⟨extHeap_inv0 hinv.toInv0 hk hst hkst hV, extHeap_nonempty hinv.nonempty hst hkst⟩
 
 end Extend
 
@@ -711,14 +758,15 @@ theorem rankNew_le (rank : Nat → Nat) (self g : Nat) (R : Nat) (hR : ∀ i, ra
   · omega
   · split <;> omega
 
-/-- **one call of `group_tokens` keeps the invariant**, for every group `self`, class, slice and flag combination on which the call
-returns (the slice must be non-empty: `start < end + include_end`, as in every call the grouping passes make), provided the recursion budget
-of `str()` exceeds the depth (`rank self`). -/
-theorem groupTokens_inv {h h' : Heap} {rank : Nat → Nat} {T : Nat → Text} (fuel : Nat) (self : Nat) (cls : Cls) (start stop : Nat)
-    (ie ext : Bool) (g : Nat) (hinv : Inv h rank T) (hfuel : rank self < fuel)
-    (hpre : start < stop + (if ie then 1 else 0))
+/-- **one call of `group_tokens` keeps `Inv0`**, for every group `self`, class, slice (also an empty one) and flag combination on which the
+call returns, provided the recursion budget of `str()` exceeds the depth (`rank self`); with a non-empty slice
+(`start < end + include_end`) groups also stay non-empty. -/
+theorem groupTokens_inv0 {h h' : Heap} {rank : Nat → Nat} {T : Nat → Text} (fuel : Nat) (self : Nat) (cls : Cls) (start stop : Nat)
+    (ie ext : Bool) (g : Nat) (hinv : Inv0 h rank T) (hfuel : rank self < fuel)
     (hcall : groupTokens (fun hx i => strF hx fuel i) h self cls start stop ie ext = .ok (h', g)) :
-    ∃ rank' T', Inv h' rank' T' ∧ ∀ R, (∀ i, rank i ≤ R) → ∀ i, rank' i ≤ R + 1 := by
+    ∃ rank' T', Inv0 h' rank' T' ∧ (∀ R, (∀ i, rank i ≤ R) → ∀ i, rank' i ≤ R + 1) ∧
+      (start < stop + (if ie then 1 else 0) → (∀ g ks, (h.obj g).kids = some ks → ks ≠ []) →
+        ∀ g ks, (h'.obj g).kids = some ks → ks ≠ []) := by
   cases hk : (h.obj self).kids with
   | none => simp [groupTokens, hk] at hcall
   | some ks =>
@@ -755,7 +803,8 @@ theorem groupTokens_inv {h h' : Heap} {rank : Nat → Nat} {T : Nat → Text} (f
         injection hcall with hcall
         injection hcall with hh hg
         subst hh
-        refine ⟨_, _, extHeap_inv hinv hk hst hkst ?_, fun R hR => rankNew_le rank self st R hR⟩
+        refine ⟨_, _, extHeap_inv0 hinv hk hst hkst ?_, fun R hR => rankNew_le rank self st R hR,
+          fun _ hne => extHeap_nonempty hne hst hkst⟩
         -- the value `str(start)` computed on the intermediate heap is the text
         have hmidSt : ((extMid h self st ks kst start (stop + (if ie then 1 else 0))).obj st).kids =
             some (kst ++ pySlice ks (start + 1) (stop + (if ie then 1 else 0))) := by
@@ -805,7 +854,8 @@ theorem groupTokens_inv {h h' : Heap} {rank : Nat → Nat} {T : Nat → Text} (f
         have hstart : start < ks.length := by
           rcases List.getElem?_eq_some_iff.mp hst with ⟨hlt, _⟩
           exact hlt
-        refine ⟨_, _, newHeap_inv hinv hk hpre hstart ?_, fun R hR => rankNew_le rank self h.size R hR⟩
+        refine ⟨_, _, newHeap_inv0 hinv hk hstart ?_, fun R hR => rankNew_le rank self h.size R hR,
+          fun hpre hne => newHeap_nonempty hne hpre hstart⟩
         have hgNotSub : h.size ∉ pySlice ks start (stop + (if ie then 1 else 0)) := by
           intro hm; have := (hsub _ hm).1; omega
         have hmidG : ((newMid h cls (pySlice ks start (stop + (if ie then 1 else 0)))).obj h.size).kids =
@@ -829,6 +879,99 @@ theorem groupTokens_inv {h h' : Heap} {rank : Nat → Nat} {T : Nat → Text} (f
         have hk1 := hksRank k (mem_of_mem_slice hm)
         rw [strF_frame hinv self h.size hnokid hagree f k hk1 (by have := (hsub k hm).1; omega)]
         exact strF_eq hinv f k (by omega)
+
+/-- **one call of `group_tokens` keeps the invariant**, for every group `self`, class, slice and flag combination on which the call
+returns (the slice must be non-empty: `start < end + include_end`, as in every call the grouping passes make), provided the recursion budget
+of `str()` exceeds the depth (`rank self`). -/
+theorem groupTokens_inv {h h' : Heap} {rank : Nat → Nat} {T : Nat → Text} (fuel : Nat) (self : Nat) (cls : Cls) (start stop : Nat)
+    (ie ext : Bool) (g : Nat) (hinv : Inv h rank T) (hfuel : rank self < fuel)
+    (hpre : start < stop + (if ie then 1 else 0))
+    (hcall : groupTokens (fun hx i => strF hx fuel i) h self cls start stop ie ext = .ok (h', g)) :
+    ∃ rank' T', Inv h' rank' T' ∧ ∀ R, (∀ i, rank i ≤ R) → ∀ i, rank' i ≤ R + 1 := by
+  obtain ⟨rank', T', h0, hb, hne⟩ := groupTokens_inv0 fuel self cls start stop ie ext g hinv.toInv0 hfuel hcall
+  exact ⟨rank', T', ⟨h0, hne hpre hinv.nonempty⟩, hb⟩
+
+/-! ## `ttype` assignments, mixed scripts -/
+
+theorem setTType_same {h h' : Heap} {self idx x : Nat} {tt : TType} (hcall : h.setTType self idx tt = .ok (h', x)) :
+    h'.size = h.size ∧ (∃ ks, (h.obj self).kids = some ks ∧ ks[idx]? = some x) ∧ (h'.obj x).ttype = tt ∧
+    (∀ j, (h'.obj j).parent = (h.obj j).parent ∧ (h'.obj j).kids = (h.obj j).kids ∧ (h'.obj j).cls = (h.obj j).cls ∧
+          (h'.obj j).value = (h.obj j).value) ∧ (∀ j, j ≠ x → (h'.obj j).ttype = (h.obj j).ttype) := by
+  simp only [Heap.setTType] at hcall
+  split at hcall
+  · cases hcall
+  · rename_i ks hk
+    split at hcall
+    · cases hcall
+    · rename_i y hi
+      injection hcall with hcall
+      injection hcall with hh hx
+      subst hh; subst hx
+      refine ⟨rfl, ⟨ks, hk, hi⟩, by simp [Heap.setObj], ?_, ?_⟩
+      · intro j
+        by_cases hj : j = y
+        · subst hj; simp [Heap.setObj]
+        · simp [Heap.setObj, hj]
+      · intro j hj; simp [Heap.setObj, hj]
+
+/-- a `ttype` assignment keeps `Inv0` (no clause of it mentions `ttype`), with the same ghosts -/
+theorem setTType_inv0 {h h' : Heap} {rank : Nat → Nat} {T : Nat → Text} {self idx x : Nat} {tt : TType} (hinv : Inv0 h rank T)
+    (hcall : h.setTType self idx tt = .ok (h', x)) : Inv0 h' rank T := by
+  obtain ⟨hsz, _, _, hsame, _⟩ := setTType_same hcall
+  exact Inv0.of_same hsz (fun j => ⟨(hsame j).1, (hsame j).2.1, (hsame j).2.2.2⟩) hinv
+
+/-- a `ttype` assignment keeps `Inv` too -/
+theorem setTType_inv {h h' : Heap} {rank : Nat → Nat} {T : Nat → Text} {self idx x : Nat} {tt : TType} (hinv : Inv h rank T)
+    (hcall : h.setTType self idx tt = .ok (h', x)) : Inv h' rank T := by
+  refine ⟨setTType_inv0 hinv.toInv0 hcall, ?_⟩
+  obtain ⟨_, _, _, hsame, _⟩ := setTType_same hcall
+  intro g ks hk
+  rw [(hsame g).2.1] at hk
+  exact hinv.nonempty g ks hk
+
+theorem HOp.run_inv0 {h h' : Heap} {rank : Nat → Nat} {T : Nat → Text} (fuel : Nat) (op : HOp) (g : Nat) (hinv : Inv0 h rank T)
+    (hfuel : ∀ i, rank i < fuel) (hcall : op.run (fun hx i => strF hx fuel i) h = .ok (h', g)) :
+    ∃ rank' T', Inv0 h' rank' T' ∧ (∀ R, (∀ i, rank i ≤ R) → ∀ i, rank' i ≤ R + 1) := by
+  cases op with
+  | group op =>
+    simp only [HOp.run] at hcall
+    obtain ⟨rank', T', h0, hb, _⟩ := groupTokens_inv0 fuel op.self op.cls op.start op.stop op.includeEnd op.extend g hinv
+      (hfuel op.self) hcall
+    exact ⟨rank', T', h0, hb⟩
+  | setType self idx tt =>
+    simp only [HOp.run] at hcall
+    exact ⟨rank, T, setTType_inv0 hinv hcall, fun R hR i => Nat.le_succ_of_le (hR i)⟩
+
+/-- **every mixed history.** After any script of `group_tokens` calls (any slices, also empty ones) and `ttype` assignments the heap
+satisfies everything but "groups are non-empty" — for every recursion budget above `depth + number of operations`. -/
+theorem runHOps_wf0 (fuel : Nat) : ∀ (ops : List HOp) (h : Heap) (rank : Nat → Nat) (T : Nat → Text) (R : Nat),
+    Inv0 h rank T → (∀ i, rank i ≤ R) → R + ops.length < fuel → WF0 (runHOps (fun hx i => strF hx fuel i) h ops).1 := by
+  intro ops
+  induction ops with
+  | nil => intro h rank T R hinv _ _; exact ⟨rank, T, hinv⟩
+  | cons op rest ih =>
+    intro h rank T R hinv hR hfuel
+    simp only [runHOps]
+    simp only [List.length_cons] at hfuel
+    cases hc : op.run (fun hx i => strF hx fuel i) h with
+    | error e =>
+      simp only
+      exact ih h rank T R hinv hR (by omega)
+    | ok r =>
+      obtain ⟨h', g⟩ := r
+      simp only
+      obtain ⟨rank', T', hinv', hb⟩ := HOp.run_inv0 fuel op g hinv (fun i => by have := hR i; omega) hc
+      exact ih h' rank' T' (R + 1) hinv' (hb R hR) (by omega)
+
+/-- a script of `group_tokens` calls is a script of heap operations -/
+theorem runOps_eq_runHOps (str : Heap → Nat → Text) (h : Heap) (ops : List Op) : runOps str h ops = runHOps str h (ops.map HOp.group) := by
+  induction ops generalizing h with
+  | nil => rfl
+  | cons op rest ih =>
+    simp only [runOps, List.map_cons, runHOps, HOp.run]
+    cases hc : groupTokens str h op.self op.cls op.start op.stop op.includeEnd op.extend with
+    | error e => simp only [ih]
+    | ok r => obtain ⟨h', g⟩ := r; simp only [ih]
 
 /-- **every history.** Starting from a well-formed heap, after any script of `group_tokens` calls (on any groups, with any classes, slices
 and flags; calls that raise change nothing) the heap is well-formed — for every recursion budget above `depth + number of calls`. -/
@@ -875,7 +1018,7 @@ theorem mkStatement_inv (vals : List Text) (hne : vals ≠ []) :
     · intro i h1 h2
       simp only [List.length_map, List.length_range] at h1
       simp [h1, List.getD_eq_getElem?_getD, List.getElem?_eq_getElem h1]
-  refine ⟨?_, ?_, ?_, ?_, ?_, ?_, ?_, ?_⟩
+  refine ⟨⟨?_, ?_, ?_, ?_, ?_, ?_, ?_⟩, ?_⟩
   · intro g ks hk
     obtain ⟨rfl, rfl⟩ := hkids g ks hk
     refine ⟨by simp [mkStatement], ?_⟩
@@ -920,15 +1063,35 @@ theorem statement_history_wf (vals : List Text) (hne : vals ≠ []) (ops : List 
     WF (runOps (fun hx i => strF hx fuel i) (mkStatement vals) ops).1 :=
   runOps_wf fuel ops _ _ _ 1 (mkStatement_inv vals hne) (by intro i; split <;> omega) hfuel hops
 
+/-- token types do not matter for the invariant -/
+theorem withTypes_inv0 {h : Heap} {rank : Nat → Nat} {T : Nat → Text} (f : Nat → TType) (hinv : Inv0 h rank T) :
+    Inv0 (h.withTypes f) rank T :=
+  Inv0.of_same (h := h) (h' := h.withTypes f) rfl (fun _ => ⟨rfl, rfl, rfl⟩) hinv
+
+theorem withTypes_inv {h : Heap} {rank : Nat → Nat} {T : Nat → Text} (f : Nat → TType) (hinv : Inv h rank T) :
+    Inv (h.withTypes f) rank T :=
+  ⟨withTypes_inv0 f hinv.toInv0, fun g ks hk => hinv.nonempty g ks hk⟩
+
+/-- the statement the splitter builds, with token types, is well-formed -/
+theorem mkStatementT_inv (toks : List Tok) (hne : toks ≠ []) :
+    Inv (mkStatementT toks) (fun j => if j = toks.length then 1 else 0)
+      (fun j => if j < toks.length then (toks.map (·.val)).getD j []
+        else if j = toks.length then (toks.map (·.val)).flatten else []) := by
+  have hne' : toks.map (·.val) ≠ [] := by
+    intro he; exact hne (List.map_eq_nil_iff.mp he)
+  have h := withTypes_inv (fun j => (toks.getD j default).tt) (mkStatement_inv (toks.map (·.val)) hne')
+  simp only [List.length_map] at h
+  exact h
+
 /-! ## what well-formedness means for a user of the tree -/
 
 /-- every child's `parent` names the group that contains it -/
-theorem WF.parent_names_container {h : Heap} (hw : WF h) (g k : Nat) (ks : List Nat)
+theorem WF0.parent_names_container {h : Heap} (hw : WF0 h) (g k : Nat) (ks : List Nat)
     (hk : (h.obj g).kids = some ks) (hm : k ∈ ks) : (h.obj k).parent = some g := by
   obtain ⟨_, _, hinv⟩ := hw; exact hinv.par g ks hk k hm
 
 /-- no object occurs twice: not twice in one group, not in two groups -/
-theorem WF.occurs_once {h : Heap} (hw : WF h) (g g' k : Nat) (ks ks' : List Nat)
+theorem WF0.occurs_once {h : Heap} (hw : WF0 h) (g g' k : Nat) (ks ks' : List Nat)
     (hk : (h.obj g).kids = some ks) (hk' : (h.obj g').kids = some ks') (hm : k ∈ ks) (hm' : k ∈ ks') :
     g = g' ∧ ks.Nodup := by
   obtain ⟨_, _, hinv⟩ := hw
@@ -942,7 +1105,7 @@ theorem WF.group_nonempty {h : Heap} (hw : WF h) (g : Nat) (ks : List Nat) (hk :
   obtain ⟨_, _, hinv⟩ := hw; exact hinv.nonempty g ks hk
 
 /-- the cached `value` of every group equals `str()` of the group (for every sufficiently large recursion budget) -/
-theorem WF.cached_value_is_text {h : Heap} (hw : WF h) : ∃ F, ∀ fuel, F ≤ fuel → ∀ g ks, (h.obj g).kids = some ks → g < h.size →
+theorem WF0.cached_value_is_text {h : Heap} (hw : WF0 h) : ∃ F, ∀ fuel, F ≤ fuel → ∀ g ks, (h.obj g).kids = some ks → g < h.size →
     (h.obj g).value = strF h fuel g := by
   obtain ⟨rank, T, hinv⟩ := hw
   refine ⟨((List.range h.size).map rank).foldl max 0 + 1, ?_⟩
@@ -969,5 +1132,21 @@ theorem WF.cached_value_is_text {h : Heap} (hw : WF h) : ∃ F, ∀ fuel, F ≤ 
         · exact ih _ x hx
     exact this _ 0 _ hmem
   omega
+
+/-- every child's `parent` names the group that contains it -/
+theorem WF.parent_names_container {h : Heap} (hw : WF h) (g k : Nat) (ks : List Nat)
+    (hk : (h.obj g).kids = some ks) (hm : k ∈ ks) : (h.obj k).parent = some g :=
+  hw.toWF0.parent_names_container g k ks hk hm
+
+/-- no object occurs twice: not twice in one group, not in two groups -/
+theorem WF.occurs_once {h : Heap} (hw : WF h) (g g' k : Nat) (ks ks' : List Nat)
+    (hk : (h.obj g).kids = some ks) (hk' : (h.obj g').kids = some ks') (hm : k ∈ ks) (hm' : k ∈ ks') :
+    g = g' ∧ ks.Nodup :=
+  hw.toWF0.occurs_once g g' k ks ks' hk hk' hm hm'
+
+/-- the cached `value` of every group equals `str()` of the group (for every sufficiently large recursion budget) -/
+theorem WF.cached_value_is_text {h : Heap} (hw : WF h) : ∃ F, ∀ fuel, F ≤ fuel → ∀ g ks, (h.obj g).kids = some ks → g < h.size →
+    (h.obj g).value = strF h fuel g :=
+  hw.toWF0.cached_value_is_text
 
 end Sql.BK
